@@ -593,6 +593,7 @@ type varsStats struct {
 	outcome                                         map[string]int // what happened to the generated cases
 	strict                                          map[string]int // informational: strict GraphQL reading
 	judged                                          int
+	sampled                                         map[string]int
 }
 
 func typeSexp(t *ast.Type) string { var s impl.Sx; s.Type(t); return s.String() }
@@ -654,6 +655,8 @@ func (c *Ctx) runVarsCases(cases []varsCase, st *varsStats) {
 			st.cases++
 			c.Ev.Traces++
 			g := goObs[i][j]
+			// nontrivial: the variables map holds a container or the operation declares several variables
+			c.Ev.Case(cs.doc+"\x00"+cs.vals[j]+"\x00"+g, strings.Count(cs.vals[j], "(") > 3 || len(cs.vars) > 1)
 			switch {
 			case strings.HasPrefix(g, "OK"):
 				st.ok++
@@ -668,7 +671,13 @@ func (c *Ctx) runVarsCases(cases []varsCase, st *varsStats) {
 					st.errMsgs[msg]++
 				}
 				if len(f) > 2 {
-					st.outcome[fmt.Sprintf("error reported at path length %d", strings.Count(strings.Join(f[2:], " "), " ")+1)]++
+					pl := strings.Count(strings.Join(f[2:], " "), " ") + 1
+					st.outcome[fmt.Sprintf("error reported at path length %d", pl)]++
+					if pl >= 5 && st.sampled["err"] < 3 && len(cs.vals[j]) < 300 {
+						st.sampled["err"]++
+						b, _ := impl.UnhexW(f[1])
+						c.Ev.Sample(map[string]any{"kind": "error deep inside a value", "declared": cs.declared(), "variables": cs.vals[j], "message": string(b), "path": strings.Join(f[2:], " ")})
+					}
 				}
 			case strings.HasPrefix(g, "PANIC"):
 				st.panic_++
@@ -708,6 +717,10 @@ func (c *Ctx) runVarsCases(cases []varsCase, st *varsStats) {
 							}
 							if strings.Count(rs, "(m I") > strings.Count(ss, "(m I") {
 								st.outcome["a typed map was copied into map[string]interface{}"]++
+								if st.sampled["copy"] < 3 && len(cs.vals[j]) < 300 {
+									st.sampled["copy"]++
+									c.Ev.Sample(map[string]any{"kind": "typed map copied", "declared": cs.declared(), "variables": cs.vals[j], "go": g})
+								}
 							}
 							if strings.Count(rs, "(sl ") > strings.Count(ss, "(sl ") {
 								st.outcome["a single value was wrapped into a list"]++
@@ -813,7 +826,7 @@ func checkVarsHalf(c *Ctx, report bool) {
 	}
 	g := &vgen{r: c.R, s: schema, dist: map[string]int{}}
 	st := &varsStats{errMsgs: map[string]int{}, panics: map[string]string{}, panicCount: map[string]int{}, specViol: map[string]int{}, specEx: map[string]string{},
-		outcome: map[string]int{}, strict: map[string]int{}}
+		outcome: map[string]int{}, strict: map[string]int{}, sampled: map[string]int{}}
 	perType := c.Pick(120, 900)
 	if v := os.Getenv("VARS_PER_TYPE"); v != "" {
 		perType, _ = strconv.Atoi(v)
@@ -929,7 +942,15 @@ func checkVarsHalf(c *Ctx, report bool) {
 	}
 	printCounts("informational (NOT part of C14, never reported): strict GraphQL input coercion of built-in scalars", st.strict)
 	c.Ev.Evals = st.cases
-	c.Ev.Rule = "vartypes: 12 base types (5 built-in scalars, custom scalar, enum, 5 input objects incl. recursive) x list depth <= 3 x every non-null pattern; type-directed values (typed slices/maps of 28 element types, json.Number forms) with defects injected at every depth; 1- and 3-variable operations, defaults"
+	for _, k := range ek {
+		c.Ev.Sample(map[string]any{"kind": "specification class " + k, "example": st.specEx[k]})
+	}
+	c.Ev.Assume = append(c.Ev.Assume,
+		"domain of the variables: nil, bool, every int/uint kind, float32/64, json.Number, string, slices and string-keyed maps of ANY element type, nested; pointers, structs, arrays, maps with non-string key types and named types other than json.Number are outside (Go-only probes printed by the check: pointers and non-string keys can still panic)",
+		"theorem hypotheses about the schema are facts of loaded schemas (C07): InputsClosed, InputFieldsNodup, EnumNamesPlain; about the operation: variable names are unique (validation), every variable type exists",
+		"wfFieldsB is the representation invariant of the Lean value type (nil interface only inside interface{} containers, map keys unique), not a restriction on Go values",
+		"built-in scalars are judged by the compatible kind table (C14) of GqlModel/Vars/Spec.lean; the strict GraphQL reading is counted as information only")
+	c.Ev.Rule = "nontrivial = the variables map holds a container value or the operation declares several variables. vartypes: 12 base types (5 built-in scalars, custom scalar, enum, 5 input objects incl. recursive) x list depth <= 3 x every non-null pattern; type-directed values (typed slices/maps of 28 element types, json.Number forms) with defects injected at every depth; 1- and 3-variable operations, defaults"
 	c.Ev.Extra["generator_distribution"] = g.dist
 	c.Ev.Extra["case_outcomes"] = st.outcome
 	c.Ev.Extra["go_outcomes"] = map[string]int{"ok": st.ok, "err": st.err, "panic": st.panic_}
